@@ -127,6 +127,12 @@ func (x *Exec) registerSpec(sf *SpecFile) {
 	for _, im := range sf.Immutable {
 		x.immutableFields[sf.Pkg+"."+im] = true
 	}
+	for _, oa := range sf.OnAllocs {
+		if x.onAllocs == nil {
+			x.onAllocs = map[string]*OnAlloc{}
+		}
+		x.onAllocs[sf.Pkg+"."+oa.Type] = oa
+	}
 	for _, oi := range sf.ObjInvs {
 		if x.objInvs == nil {
 			x.objInvs = map[string]*ObjInv{}
